@@ -48,6 +48,9 @@ pub enum Fix {
     Balance,
     /// subtract its value and add a non-zero shift (statement unsatisfiable by the witness)
     BalancePlus(Sc),
+    /// subtract the honest value of *another* expression (keeps the constant of an original row
+    /// while the row's coefficients are altered)
+    BalanceAs(Lx),
 }
 
 #[derive(Clone, Debug, Serialize, Deserialize, PartialEq)]
